@@ -30,6 +30,12 @@ T = {
          "completes during it, resume afterwards iff not already paused; saved files of real runs are compared with "
          "the event trace at the acknowledgement instant.",
          "Lean 4 invariant proof + snapshot-vs-trace correspondence", "§7.4", PROTO_NOTE),
+ "C05": ("load_save / load_save_id: for every system, reader and fresh directory the real save order followed by load yields "
+         "the saved observables (buffers incl. loading into smaller ones, arrival counts for every t, trainer markers over "
+         "extended rationals, model versions after the post-load sync, every leaf, clock continuing from the saved "
+         "instant); relaunch theorem; correspondence on random systems saved by the real StateStore/launch() and loaded "
+         "into fresh objects and fresh processes.", "Lean 4 round-trip proofs over an abstract file system + differential correspondence", "§7.5",
+         "Trusted: Lean kernel, standard axioms, scripted clock/random. Byte formats (pickle, str(float)) are validated by byte suites, not proved; IEEE rounding not modelled; user components are the harness's."),
  "C06": ("Refinement theorem: the model clock equals the integral of the time scale over un-paused real time for every "
          "history; monotonicity, continuity, export purity, sleep length, bounded slip; exact-rational correspondence "
          "with time.py on exhaustive small and random histories.",
@@ -59,6 +65,12 @@ T = {
          "flag stream and request pattern; correspondence on all patterns of length <= 6 and random longer scripts.",
          "Lean 4 proofs over all scripts + differential correspondence", "§7.20",
          "Trusted: Lean kernel, standard axioms. Gymnasium itself is replaced by a minimal stand-in (harness/stubs/gymnasium); callbacks terminate and do not raise."),
+ "C10": ("old_states_untouched (every path outside the new directory unchanged for every crash point and truncation) and "
+         "torn_rejected (every proper prefix of the save's operation sequence, with any truncation of the file being written, "
+         "is rejected by load for every system, tolerant user leaves included) over an abstract file system with the code's "
+         "operation order; fails_before_threads; real saves killed at every file-system operation in child processes, every "
+         "truncation <= 512 B, relaunch from torn directories.", "Lean 4 proofs over all crash points + fault-enumeration correspondence", "§7.10",
+         "Trusted: Lean kernel, standard axioms, audit-hook crash injection. Process-kill model only (no power-loss reordering); rejection of every proper pickle prefix is validated on the real bytes, not proved."),
  "C11": ("Invariants by induction over add/load histories for the four buffer classes (suffix property, one-slot "
          "replacement, p=1 always, p=0 never, subset, alignment, constructor totality); correspondence with scripted "
          "random draws.", "Lean 4 proofs by induction over operation sequences + differential correspondence", "§7.11",
